@@ -127,6 +127,17 @@ def make_interp(ctx):
             if isinstance(base.text, str):
                 return fix(base.text)
             return strdom.norm(strdom.SStr([fix(s_) if isinstance(s_, str) else s_ for s_ in base.text.segs]))
+        if isinstance(base, EncodedText) and name == 'translate' and len(args) == 1 and not kwargs:
+            # a 256-entry byte translation table applied to latin-1 text: character for character on the literal parts; the
+            # symbolic parts are hex digits, which the table has to leave alone for this to be decided
+            tb = args[0]
+            tbl = list(tb.items) if isinstance(tb, AList) and not tb.has_var() else (list(tb) if isinstance(tb, (bytes, bytearray)) else None)
+            if tbl is None or len(tbl) != 256 or not all(isinstance(x, int) for x in tbl) or any(tbl[ord(ch)] != ord(ch) for ch in '0123456789abcdefABCDEF'):
+                return Opaque('bytes.translate with a table that is not a constant leaving hex digits alone')
+            conv_t = lambda s_: ''.join(chr(tbl[ord(ch)]) if ord(ch) < 256 else ch for ch in s_)      # noqa: E731
+            if isinstance(base.text, str):
+                return EncodedText(conv_t(base.text))
+            return EncodedText(strdom.norm(strdom.SStr([conv_t(s_) if isinstance(s_, str) else s_ for s_ in base.text.segs])))
         if isinstance(base, EncodedText) and name == 'startswith' and len(args) == 1 and isinstance(args[0], (bytes, bytearray)) and len(args[0]) == 1:
             if base.absint_len() == 0:
                 return False
@@ -156,6 +167,11 @@ def sysex(ctx, tag, k):
     return wire.make_message(ctx, 'sysex', {'data': AList([smf.sym(f'{tag}{i}', 127) for i in range(k)], 'tuple')}, 0)
 
 
+def _frozen(ctx, msg):
+    msg.cls = ctx.p.cls('mido.frozen', 'FrozenMessage')
+    return msg
+
+
 def _timed(msg, t):
     msg.attrs['time'] = t
     return msg
@@ -178,6 +194,11 @@ def r19_roundtrip(ctx):
         'two-adjacent': lambda: [sysex(ctx, 'a', 1), sysex(ctx, 'b', 3)],
         'no-sysex': lambda: [wire.make_message(ctx, 'note_on', {'channel': 1, 'note': 2, 'velocity': 3}, 0)],
         'empty-list': lambda: [],
+        # a sysex message is one whatever class of message object carries it: frozen ones (what a set or a dictionary of
+        # messages holds) are written like the others
+        'frozen-and-plain': lambda: [_frozen(ctx, sysex(ctx, 'a', 2)), sysex(ctx, 'b', 1), _frozen(ctx, wire.make_message(ctx, 'clock', {}, 0)),
+                                     _frozen(ctx, sysex(ctx, 'c', 0))],
+        'all-frozen': lambda: [_frozen(ctx, sysex(ctx, 'a', 3)), _frozen(ctx, sysex(ctx, 'b', 1))],
         # the order is the order of the list, whatever the messages carry otherwise (their times run backwards here)
         'times-running-backwards': lambda: [_timed(sysex(ctx, 'a', 2), 9), _timed(sysex(ctx, 'b', 1), 5),
                                             _timed(wire.make_message(ctx, 'clock', {}, 0), 7), _timed(sysex(ctx, 'c', 3), 0.5)],
